@@ -152,8 +152,12 @@ func vObjAt(kind int, tx, ty float64, flip bool) Object {
 func H_Obj_Sem(p []int) {
 	ka, kb := p[0], p[1]
 	tx, ty := vF("tx", 0), vF("ty", 0)
-	A := vObjAt(ka, 0, 0, false)
-	B := vObjAt(kb, tx, ty, true)
+	flipA, flipB := false, true
+	if len(p) > 2 { // thorough tier: the other three combinations of the two base shapes
+		flipA, flipB = p[2]&1 != 0, p[2]&2 != 0
+	}
+	A := vObjAt(ka, 0, 0, flipA)
+	B := vObjAt(kb, tx, ty, flipB)
 	ab, ba := A.Intersects(B), B.Intersects(A)
 	vAssert(ab == ba, "C09.intersects-symmetric")
 	if A.Contains(B) && !B.Empty() {
@@ -167,6 +171,9 @@ func H_Obj_Sem(p []int) {
 	if ka == 4 {
 		// Rect answers as the equivalent five-point polygon
 		base := []geometry.Point{{X: 0, Y: 0}, {X: 2, Y: 0}, {X: 0, Y: 2}}
+		if flipA {
+			base = []geometry.Point{{X: 0, Y: 0}, {X: 1, Y: 1}, {X: 2, Y: 0}}
+		}
 		ea := vEquiv(4, base)
 		vAssert(A.Contains(B) == ea.Contains(B), "C09.rect-transparent-contains")
 		vAssert(A.Within(B) == ea.Within(B), "C09.rect-transparent-within")
